@@ -161,10 +161,15 @@ def _bounded(gen, n):
         yield x
 
 
-def _spl_items(gen, ramp, obj=None):
+def _spl_items(gen, ramp, obj=None, collect=False):
     """firstlast_splicing consumed window by window: the amplitude vector is read, then overwritten by the caller (it is the
     caller's array: `amp *= gain` must not reach the vectors handed out later)"""
     out = []
+    if collect:
+        # the other legitimate consumer (seed round g: one buffer reused for every window): all windows are collected first -
+        # list(wg.firstlast_splicing), windows handed to workers, a second pass - and the amplitudes are read afterwards
+        items = [(f, l, a, int(obj.iw) if obj is not None else -1) for f, l, a in gen]
+        return [(int(f), int(l), _rle(a, ramp), len(a), iw) for f, l, a, iw in items]
     for f, l, a in gen:
         out.append((int(f), int(l), _rle(a, ramp), len(a), int(obj.iw) if obj is not None else -1))
         try:
@@ -277,7 +282,7 @@ def record(ns, w, ov):
             else:
                 val, viw = [(f, l, -1, -1) for f, l, _ in fl], [i for _, _, i in fl]
             o = new()
-            spl = _spl_items(_bounded(o.firstlast_splicing, cap), ramp, o)
+            spl = _spl_items(_bounded(o.firstlast_splicing, cap), ramp, o, collect=(ns + 2 * w + ov) % 3 == 0)
             ts = tscale(new())
             o = new()
             sl, sliw = [], []
